@@ -10,7 +10,7 @@ rendering."""
 import re
 
 from ..common import field_accesses, is_derived_impl, lib_reachable, short, where
-from ..exprs import inline_calls, strip
+from ..exprs import inline_calls, mentions, simplify, strip, subst_params
 from ..mirlib import Expr, Program, expr_str, op_place
 
 SETTINGS = "settings::Settings"
@@ -131,15 +131,24 @@ def run(run):
                     "settings.%s is read %d time(s) in %s; expected one read in fragments_to_node" % (sw, len(rs), [short(x) for x in where_read]))
 
     # ---------------- E2 cosmetics
+    # the style builder = `style`, its closures and the private helpers of the module that only it (or they) call
+    from ..common import module_region
+    style_region = set(module_region(prog, style_fn)) if style_fn else set()
+    for q in sorted(style_region - {style_fn}):
+        if "{closure" in q:
+            continue
+        outside = [c for c, _, _ in prog.callers(q) if c not in style_region]
+        if outside:
+            style_region.discard(q)   # shared with other code: what it reads can end up elsewhere
     for f in COSMETIC:
         rs = [(p, st) for p, st in reads.get(f, []) if not is_derived_impl(p) and not _settings_copy(st, f)]
         readers = sorted({p for p, _ in rs})
         if not rs:
             run.bad("C18.E2", "cosmetic-unread/%s" % f, None, "settings.%s is never read: the setting has no effect on the style sheet" % f)
-        elif style_fn and readers == [style_fn]:
+        elif style_fn and all(r in style_region for r in readers):
             run.ok("C18.E2", "settings.%s read only by the style builder" % f, where(rs[0][1]), "%d read(s)" % len(rs))
         else:
-            bad = [r for r in rs if r[0] != style_fn]
+            bad = [r for r in rs if r[0] not in style_region]
             run.bad("C18.E2", "cosmetic-read/%s" % f, where(bad[0][1]) if bad else None,
                     "settings.%s is read outside the style-sheet builder: %s" % (f, [short(x) for x in readers]))
     run.floor("C18.E2", "settings_fields", len([f for f in COSMETIC if f in reads]), 6)
@@ -188,90 +197,120 @@ def _settings_copy(st, field):
 
 
 def e4(run):
+    """E4 siblings agree.  Every node-building function and every library entry point is brought to one normal form -
+    crate-local calls inlined (in whichever direction the functions delegate to each other) down to the leaf builders
+    `fragments_to_node`, `group_nodes_and_fragments`, `legend_css`, `get_size`, `CellBuffer::from`, `Settings::default`
+    and the sauron render calls - and the normal forms are compared: the override builder is
+    fragments_to_node(fragments, legend_css, settings, w, h).with_children(group_nodes); the sized builder, get_node and
+    the five entry points are that same expression with their own (buffer, settings, w, h) substituted."""
     prog = run.prog
-    P = "svgbob::buffer::cell_buffer::CellBuffer::"
-    need = {n: prog.method(n, r"cell_buffer::CellBuffer$") for n in ("get_node", "get_node_with_size", "get_node_override_size", "get_size")}
+    need = {n: prog.method(n, r"cell_buffer::CellBuffer$") for n in ("get_node", "get_node_with_size", "get_node_override_size", "get_size",
+                                                                     "fragments_to_node", "group_nodes_and_fragments", "legend_css")}
     for n, p in need.items():
         if not p:
             run.missing("C18.E4", "CellBuffer::" + n)
             return
-    sized = Expr(prog, need["get_node_with_size"]).returns()
-    over = Expr(prog, need["get_node_override_size"]).returns()
-    if len(sized) != 1 or len(over) != 1:
-        run.bad("C18.E4", "sibling-shape", where(prog.bodies[need["get_node_with_size"]]), "node builders have several return expressions")
-        return
-    s = strip(sized[0])
-    o = drop_blocks(strip(over[0]))
-    if s[0] != "agg" or len(s[3]) != 3:
-        run.bad("C18.E4", "sibling-shape", where(prog.bodies[need["get_node_with_size"]]), "get_node_with_size does not return (node, w, h)")
-        return
-    # delegation (the sized builder calling the override builder with get_size's values) is inlined away
-    s_node = drop_blocks(strip(inline_calls(prog, dict(s[3])["0"], keep=r"^(?!.*CellBuffer::get_node_override_size$).*$", depth=1)))
+    LEAVES = r"CellBuffer::(fragments_to_node|group_nodes_and_fragments|legend_css|get_size)$|convert::From<|Default>::default$|Node<MSG>>::render|with_children$"
+
+    def norm(e):
+        return drop_blocks(strip(simplify(inline_calls(prog, e, keep=LEAVES, depth=6))))
+
+    def alts(p):
+        out = []
+        for r in Expr(prog, p).returns():
+            x = norm(r)
+            out.extend(strip(y) for y in x[1]) if x[0] == "phi" else out.append(x)
+        return out
+
     gs = need["get_size"]
+    P = lambda i: ("param", i, ())
+    default = None
 
-    def sz(e):
-        # get_size(self, settings).0 -> arg3, .1 -> arg4
-        if e[0] == "field" and strip(e[1])[0] == "call" and strip(e[1])[1] == gs and e[2] in (("0",), ("1",)):
-            return ("param", 3 if e[2] == ("0",) else 4, ())
-        return None
+    def is_default(e):
+        e = strip(e)
+        return e[0] == "call" and re.search(r"Settings as core::default::Default>::default$", e[1]) is not None
 
-    s_sub = subst(s_node, sz)
-    if s_sub == o:
-        run.ok("C18.E4", "override-size builder == sized builder with (w,h) substituted", where(prog.bodies[need["get_node_override_size"]]), expr_str(o)[:160])
+    # 1. the override builder is the base expression
+    ov = alts(need["get_node_override_size"])
+    base = ov[0] if len(ov) == 1 else None
+    ok = False
+    if base is not None and base[0] == "call" and base[1].endswith("with_children") and len(base[2]) == 2:
+        f2n, kids = strip(base[2][0]), strip(base[2][1])
+        gnf = ("call", need["group_nodes_and_fragments"], (P(1), P(2)))
+        ok = f2n[0] == "call" and f2n[1] == need["fragments_to_node"] and len(f2n[2]) == 5 and \
+            strip(simplify(("field", gnf, ("1",)))) == strip(f2n[2][0]) and strip(f2n[2][1]) == ("call", need["legend_css"], (P(1),)) and \
+            [strip(a) for a in f2n[2][2:]] == [P(2), P(3), P(4)] and kids == strip(simplify(("field", gnf, ("0",))))
+    if ok:
+        run.ok("C18.E4", "override-size builder = fragments_to_node(fragments, legend_css, settings, w, h).with_children(group_nodes)",
+               where(prog.bodies[need["get_node_override_size"]]), expr_str(base)[:160])
     else:
         run.bad("C18.E4", "sibling-differs/get_node_override_size", where(prog.bodies[need["get_node_override_size"]]),
-                "get_node_override_size builds `%s` but get_node_with_size builds `%s`" % (expr_str(o)[:200], expr_str(s_sub)[:200]))
-    # (w,h) returned are get_size
-    for i, nm in ((1, "w"), (2, "h")):
-        e = strip(dict(s[3])[str(i)])
-        if e[0] == "field" and strip(e[1])[0] == "call" and strip(e[1])[1] == gs and e[2] == (str(i - 1),):
-            run.ok("C18.E4", "returned %s is get_size().%d" % (nm, i - 1), where(prog.bodies[need["get_node_with_size"]]), nontrivial=False)
+                "get_node_override_size builds `%s`" % (expr_str(base)[:240] if base is not None else "several alternatives"))
+        return
+
+    def inst(buf, st, w, h):
+        return drop_blocks(strip(simplify(subst_params(base, [buf, st, w, h]))))
+
+    def size_of(buf, st, i):
+        return drop_blocks(strip(simplify(("field", ("call", gs, (buf, st)), (str(i),)))))
+
+    # 2. the sized builder
+    sz = alts(need["get_node_with_size"])
+    if len(sz) == 1 and sz[0][0] == "agg" and len(sz[0][3]) == 3:
+        comps = [strip(v) for _, v in sz[0][3]]
+        want = [inst(P(1), P(2), size_of(P(1), P(2), 0), size_of(P(1), P(2), 1)), size_of(P(1), P(2), 0), size_of(P(1), P(2), 1)]
+        if comps[0] == want[0]:
+            run.ok("C18.E4", "override-size builder == sized builder with (w,h) substituted", where(prog.bodies[need["get_node_with_size"]]))
         else:
-            run.bad("C18.E4", "size-return/%s" % nm, where(prog.bodies[need["get_node_with_size"]]), "returned %s is %s" % (nm, expr_str(e)))
-    # get_node = get_node_with_size(self, &Settings::default()).0
-    gn = Expr(prog, need["get_node"]).returns()
-    e = strip(gn[0]) if len(gn) == 1 else ("unknown",)
-    ok = e[0] == "field" and e[2] == ("0",) and strip(e[1])[0] == "call" and strip(e[1])[1] == need["get_node_with_size"] and \
-        strip(strip(e[1])[2][1])[0] == "call" and re.search(r"Settings as core::default::Default>::default$", strip(strip(e[1])[2][1])[1])
-    if ok:
+            run.bad("C18.E4", "sibling-differs/get_node_with_size", where(prog.bodies[need["get_node_with_size"]]),
+                    "get_node_with_size builds `%s`, the override builder with get_size substituted is `%s`" % (expr_str(comps[0])[:200], expr_str(want[0])[:200]))
+        for i, nm in ((1, "w"), (2, "h")):
+            if comps[i] == want[i]:
+                run.ok("C18.E4", "returned %s is get_size().%d" % (nm, i - 1), where(prog.bodies[need["get_node_with_size"]]), nontrivial=False)
+            else:
+                run.bad("C18.E4", "size-return/%s" % nm, where(prog.bodies[need["get_node_with_size"]]), "returned %s is %s" % (nm, expr_str(comps[i])[:100]))
+    else:
+        run.bad("C18.E4", "sibling-shape", where(prog.bodies[need["get_node_with_size"]]), "get_node_with_size does not return one (node, w, h)")
+
+    # 3. get_node = the same with default settings
+    gn = alts(need["get_node"])
+    okg = False
+    if len(gn) == 1:
+        ds = []
+        mentions(gn[0], lambda z: is_default(z) and ds.append(strip(z)) and False)
+        if ds:
+            d0 = ds[0]
+            okg = gn[0] == inst(P(1), d0, size_of(P(1), d0, 0), size_of(P(1), d0, 1))
+    if okg:
         run.ok("C18.E4", "get_node = get_node_with_size(default settings).0", where(prog.bodies[need["get_node"]]))
     else:
-        run.bad("C18.E4", "sibling-differs/get_node", where(prog.bodies[need["get_node"]]), "get_node is `%s`" % expr_str(e)[:160])
-    # library entry points
+        run.bad("C18.E4", "sibling-differs/get_node", where(prog.bodies[need["get_node"]]), "get_node is `%s`" % (expr_str(gn[0])[:160] if gn else "?"))
+
+    # 4. library entry points
     ep = {}
     for n in ("to_svg", "to_svg_string_pretty", "to_svg_string_compressed", "to_svg_with_settings", "to_svg_with_override_size"):
         p = "svgbob::" + n
         if p not in prog.bodies:
             run.missing("C18.E4", p)
             return
-        # helper extraction and delegation between the entry points are made invisible: crate-local calls are
-        # inlined down to the node builders
-        flat = []
-        for r in Expr(prog, p).returns():
-            x = strip(inline_calls(prog, r, keep=r"get_node_with_size$|get_node_override_size$|convert::From<|Default>::default$"))
-            flat.extend(strip(y) for y in x[1]) if x[0] == "phi" else flat.append(x)
-        ep[n] = [drop_blocks(x) for x in flat]
+        ep[n] = alts(p)
 
     def rendered(rs, method_re):
         """(node expr) if the returned string is produced by exactly one sauron render call"""
         nodes = []
         for r in rs:
-            if r[0] == "call" and re.search(method_re, r[1]):
-                nodes.append(r[2][0])
-            elif r[0] == "mutated_by" and re.search(method_re, r[1]):
-                nodes.append(r[2][0])
+            if r[0] in ("call", "mutated_by") and re.search(method_re, r[1]):
+                nodes.append(strip(r[2][0]))
             elif r[0] == "call" and r[1].endswith("String::new"):
                 continue
             else:
                 return None
         return nodes[0] if len(nodes) == 1 else None
 
-    conv = lambda argi: ("call", None)
-    t = ep["to_svg"]
-    if t == ep["to_svg_string_pretty"]:
+    if ep["to_svg"] == ep["to_svg_string_pretty"]:
         run.ok("C18.E4", "to_svg = to_svg_string_pretty(ascii) (same expression after inlining)", where(prog.bodies["svgbob::to_svg"]))
     else:
-        run.bad("C18.E4", "sibling-differs/to_svg", where(prog.bodies["svgbob::to_svg"]), "to_svg is `%s`" % " | ".join(expr_str(x) for x in t)[:160])
+        run.bad("C18.E4", "sibling-differs/to_svg", where(prog.bodies["svgbob::to_svg"]), "to_svg is `%s`" % " | ".join(expr_str(x) for x in ep["to_svg"])[:160])
     pn = rendered(ep["to_svg_string_pretty"], r"Node<MSG>>::render$")
     cn = rendered(ep["to_svg_string_compressed"], r"Node<MSG>>::render_to_string$")
     sn = rendered(ep["to_svg_with_settings"], r"Node<MSG>>::render$")
@@ -282,32 +321,30 @@ def e4(run):
                     "%s does not return the output of exactly one sauron render call: %s" % (n, " | ".join(expr_str(x) for x in ep[n])[:200]))
     if pn is not None and cn is not None:
         if pn == cn:
-            run.ok("C18.E4", "pretty and compressed render the same node expression", where(prog.bodies["svgbob::to_svg_string_compressed"]), expr_str(pn))
+            run.ok("C18.E4", "pretty and compressed render the same node expression", where(prog.bodies["svgbob::to_svg_string_compressed"]), expr_str(pn)[:160])
         else:
             run.bad("C18.E4", "sibling-differs/pretty-vs-compressed", where(prog.bodies["svgbob::to_svg_string_compressed"]),
-                    "pretty renders `%s`, compressed renders `%s`" % (expr_str(pn), expr_str(cn)))
-    cb_from = lambda e: strip(e)[0] == "call" and re.search(r"CellBuffer as core::convert::From<&str>>::from$", strip(e)[1]) and strip(e)[2] == (("param", 1, ()),)
+                    "pretty renders `%s`, compressed renders `%s`" % (expr_str(pn)[:160], expr_str(cn)[:160]))
+    cbf = [q for q in prog.bodies if re.search(r"CellBuffer as core::convert::From<&str>>::from$", q)]
+    buf = ("call", cbf[0], (P(1),)) if cbf else None
+    if buf is None:
+        run.missing("C18.E4", "CellBuffer::from(&str)")
+        return
     if pn is not None:
-        e = strip(pn)
-        okp = e[0] == "field" and e[2] == ("0",) and strip(e[1])[0] == "call" and strip(e[1])[1] == need["get_node_with_size"] and \
-            cb_from(strip(e[1])[2][0]) and strip(strip(e[1])[2][1])[0] == "call" and re.search(r"Settings as core::default::Default>::default$", strip(strip(e[1])[2][1])[1])
+        ds = []
+        mentions(pn, lambda z: is_default(z) and ds.append(strip(z)) and False)
+        okp = bool(ds) and pn == inst(buf, ds[0], size_of(buf, ds[0], 0), size_of(buf, ds[0], 1))
         if okp:
             run.ok("C18.E4", "pretty = render(CellBuffer::from(ascii).get_node_with_size(default settings).0)", where(prog.bodies["svgbob::to_svg_string_pretty"]))
         else:
-            run.bad("C18.E4", "entry-node/to_svg_string_pretty", where(prog.bodies["svgbob::to_svg_string_pretty"]), "renders `%s`" % expr_str(e))
+            run.bad("C18.E4", "entry-node/to_svg_string_pretty", where(prog.bodies["svgbob::to_svg_string_pretty"]), "renders `%s`" % expr_str(pn)[:200])
     if sn is not None:
-        e = strip(sn)
-        ok = e[0] == "field" and e[2] == ("0",) and strip(e[1])[0] == "call" and strip(e[1])[1] == need["get_node_with_size"] and \
-            cb_from(strip(e[1])[2][0]) and strip(strip(e[1])[2][1]) == ("param", 2, ())
-        if ok:
+        if sn == inst(buf, P(2), size_of(buf, P(2), 0), size_of(buf, P(2), 1)):
             run.ok("C18.E4", "with_settings = render(CellBuffer::from(ascii).get_node_with_size(settings).0)", where(prog.bodies["svgbob::to_svg_with_settings"]))
         else:
-            run.bad("C18.E4", "entry-node/to_svg_with_settings", where(prog.bodies["svgbob::to_svg_with_settings"]), "renders `%s`" % expr_str(e))
+            run.bad("C18.E4", "entry-node/to_svg_with_settings", where(prog.bodies["svgbob::to_svg_with_settings"]), "renders `%s`" % expr_str(sn)[:200])
     if on is not None:
-        e = strip(on)
-        ok = e[0] == "call" and e[1] == need["get_node_override_size"] and cb_from(e[2][0]) and \
-            [strip(x) for x in e[2][1:]] == [("param", 2, ()), ("param", 3, ()), ("param", 4, ())]
-        if ok:
+        if on == inst(buf, P(2), P(3), P(4)):
             run.ok("C18.E4", "override_size = render(CellBuffer::from(ascii).get_node_override_size(settings, w, h))", where(prog.bodies["svgbob::to_svg_with_override_size"]))
         else:
-            run.bad("C18.E4", "entry-node/to_svg_with_override_size", where(prog.bodies["svgbob::to_svg_with_override_size"]), "renders `%s`" % expr_str(e))
+            run.bad("C18.E4", "entry-node/to_svg_with_override_size", where(prog.bodies["svgbob::to_svg_with_override_size"]), "renders `%s`" % expr_str(on)[:200])
